@@ -79,7 +79,7 @@ def rsa_cases(rng, quick):
   def sp(bits):
     a = gen.rsa_healthy(rng, 'x', bits)
     return a.meta['n'], a.meta['p'], a.meta['q']
-  for bits in ([1024, 2046, 2047, 2048, 2049, 3072] if not quick else [1024, 2047, 2048, 2049]):
+  for bits in ([512, 1023, 1024, 2046, 2047, 2048, 2049, 3072, 4096, 8192] if not quick else [512, 1023, 1024, 2047, 2048, 2049, 3072, 4096]):
     if bits % 2:
       p = art.rand_prime_top2(rng, bits // 2 + 1)
       while True:
@@ -150,9 +150,10 @@ def rsa_cases(rng, quick):
         break
     out.append(('variant%d' % i, p * q, b'\x01\x00\x01', None))
   # quadratic non-residue at exactly one of the 48 primes (boundary of the variant criterion)
-  for i in range(2 if quick else 10):
+  # ... one key per prime of the table (each of the 48 conditions on its own), plus random repeats in the thorough tier
+  for i in (list(range(len(VAR_P))) + ([] if quick else [rng.randrange(len(VAR_P)) for _ in range(10)])):
     p = art.rand_prime_top2(rng, 1024)
-    j = rng.randrange(len(VAR_P))
+    j = i if i < len(VAR_P) else rng.randrange(len(VAR_P))
     pj = VAR_P[j]
     nonres = [x for x in range(1, pj) if pow(x, (pj - 1) // 2, pj) == pj - 1]
     Mrest = M48 // pj
@@ -165,7 +166,7 @@ def rsa_cases(rng, quick):
       q = q0 + M48 * (rng.getrandbits(1024 - M48.bit_length() - 2) | 1) * 2
       if gmpy2.is_prime(q):
         break
-    out.append(('almostvariant%d' % i, p * q, b'\x01\x00\x01', None))
+    out.append(('almostvariant-p%d-%d' % (pj, len(out)), p * q, b'\x01\x00\x01', None))
   # quadratic non-residue at exactly TWO of the 48 primes (a product-of-primes / Jacobi-symbol shortcut would accept these)
   for (j1, j2) in ([(0, 1), (8, 15), (40, 47), (3, 30)] if quick else [(0, 1), (2, 7), (8, 15), (9, 10), (16, 23), (24, 31), (32, 39), (40, 47), (3, 30), (5, 44)]):
     res = []
@@ -404,7 +405,8 @@ def run(ctx):
   jobs = []
   for i, (tag, n, e_bytes, n_bytes) in enumerate(cases):
     jobs.append((tag, n, e_bytes, n_bytes, i % 2 == 0, i % 3 == 0))
-    if i % 5 == 0:
+    if i % 5 == 0 or tag.startswith('size'):
+      # every size in the user-supplied list AND out of it (the list is keyed by "RSA-<bits>:<fingerprint>" for any bit length)
       jobs.append((tag, n, e_bytes, n_bytes, i % 2 == 1, False))
   seeds = []
   for bits in [2048, 3072, 4096]:
